@@ -434,10 +434,31 @@ let c04 (payload : string) : string =
   let inv = List.sort compare (List.map (fun ((_, _), a) -> int_of_nat a) st.invoked) in
   Printf.sprintf "%s inv=[%s]" (String.concat " " per) (String.concat "," (List.map string_of_int inv))
 
+(* ---------------- C20: pools ---------------- *)
+let c20 (payload : string) : string =
+  match split_on ' ' payload with
+  | ["fpr"; mn; mx] ->
+    (* exhaustive over sizes 0..max+2: change points of (get index, put index) *)
+    let pmin = n_of_dec mn and pmax = n_of_dec mx in
+    let maxi = int_of_string mx in
+    let show o = (match o with None -> "-" | Some i -> string_of_int (int_of_n i)) in
+    let buf = Buffer.create 256 in
+    let last = ref "" in
+    for size = 0 to maxi + 2 do
+      let sz = n_of_int size in
+      let cur = show (find_get pmin pmax sz) ^ "/" ^ show (find_put pmin pmax sz) in
+      if cur <> !last then begin Buffer.add_string buf (Printf.sprintf "%d:%s " size cur); last := cur end
+    done;
+    let k = int_of_n (last_class pmin pmax) in
+    let sizes = List.init (k + 1) (fun i -> string_of_int (int_of_n (class_size pmin pmax (n_of_int i)))) in
+    String.trim (Buffer.contents buf) ^ " | classes=" ^ String.concat "," sizes
+  | _ -> c04 payload
+
 let () =
   let prop = Sys.argv.(1) in
   let f = match prop with
     | "C12" -> c12
+    | "C20" -> c20
     | "C04" | "C07" -> c04
     | "C14" -> c14
     | "C17" -> c17
